@@ -250,9 +250,12 @@ class Gen:
         if r < 0.97:
             self.used_strvar = True
             return f"{kw(rng, 'GET$')}({self.small_int()})"
-        if r < 0.985:
+        if r < 0.98:
             self.note("fn:EOL$")
-            return kw(rng, "EOL$")
+            return kw(rng, rng.choice(["EOL$", "EOL$", "EOL_NOTAB$"]))
+        if r < 0.985:
+            self.note("fn:NO_NEWLINE$")
+            return kw(rng, "NO_NEWLINE$")
         return "(" + self.str_expr(depth - 1) + ")"
 
     def str_expr(self, depth=2):
